@@ -101,7 +101,7 @@ def run(prop, tier, seed):
         for r in rej:
             d = byid.get(r['tid'], {})
             sig = {'kind': r['pst'], 'cls': r['cls']}
-            payload = {'property': prop, 'kind': 'codec-vector', 'clause': r['clause'], 'signature': sig, 'vector': vecs[r['tid']],
+            payload = {'property': prop, 'kind': 'codec-vector', 'clause': r['clause'], 'signature': sig, 'vector': vecs[r['tid'] % 50000000],
                        'result': {k: d.get(k) for k in ('raised', 'none', 'rt_ok', 'dec_ok', 'dec_err', 'diff', 'ddiff')},
                        'impl_hex': bytes(d.get('impl', d.get('bin', []))).hex(), 'ref_hex': bytes(d.get('ref', [])).hex(), 'text': d.get('text')}
             v.reject(r['clause'], sig, payload, ((d.get('ddiff') if r['clause'].endswith('decode') else d.get('diff')) or '')[:200])
